@@ -28,6 +28,8 @@ type common struct {
 	caseFile string
 	workers  int
 	limit    int
+	// allVariants includes the variants that VariantNames leaves out for wrapper-union packages
+	allVariants bool
 }
 
 func (c *common) register(fs *flag.FlagSet) {
@@ -59,6 +61,9 @@ func (c *common) packages() []*reg.Pkg {
 
 func (c *common) variantsFor(cp *conc.Corpus, p *reg.Pkg) []string {
 	all := cp.VariantNames(p)
+	if c.allVariants {
+		all = cp.VariantNamesAll(p)
+	}
 	if c.variants == "" {
 		return all
 	}
